@@ -57,6 +57,8 @@ def run_one(name, prop, apply_fn, tier, scale, extra_env=None):
         cmd = ['/venv/bin/python', '-m', 'simstone.check', prop, '--tier', tier]
         if scale:
             cmd += ['--scale', str(scale)]
+        if os.environ.get('SENS_SEED'):
+            cmd += ['--seed', os.environ['SENS_SEED']]
         t0 = time.time()
         p = subprocess.run(cmd, cwd=VERIF, env=env, capture_output=True, text=True, timeout=3600)
         wall = time.time() - t0
